@@ -1699,6 +1699,10 @@ def nostd_extra_modules():
         ("#[nutype(validate(with = chk, error = CErr), derive(Debug, Clone, PartialEq, FromStr))]",
          "pub struct P<T: Default + PartialEq>(T);\n    use super::rt::CErr;\n    fn chk<T: Default + PartialEq>(v: &T) -> Result<(), CErr> { if *v == T::default() { Err(CErr(0)) } else { Ok(()) } }"),
         ("#[nutype(const_fn, validate(greater = 0), derive(Debug, Clone, Copy, PartialEq, Eq, PartialOrd, Ord, Hash, FromStr, Display, TryFrom, Into, AsRef, Deref, Borrow, Default), default = 1)]", "pub struct P(i64);"),
+        ("#[nutype(validate(predicate = |v| !v.is_empty()), derive(Debug, Clone, PartialEq, AsRef, Deref, TryFrom, Serialize, Deserialize))]", "pub struct P<T>(Vec<T>) where T: Ord;"),
+        ("#[nutype(validate(predicate = |v| !v.0.is_empty()), derive(Debug, Clone, PartialEq, AsRef, Deref, TryFrom))]", "pub struct P<'a, T: Clone>((alloc::borrow::Cow<'a, str>, T));"),
+        ("#[nutype(sanitize(with = |mut v: alloc::collections::BTreeMap<K, V>| { v.retain(|_, x| *x != V::default()); v }), derive(Debug, Clone, PartialEq, AsRef, Deref, From, IntoIterator))]",
+         "pub struct P<K: Ord, V: Default + PartialEq>(alloc::collections::BTreeMap<K, V>);"),
     ]
     out = []
     for i, (attr_, item) in enumerate(decls):
